@@ -69,6 +69,11 @@ def gen_case(seed, tier, index=0):
     if rng.chance(0.5):
         files.append({"path": "LICENSES/LicenseRef-Custom.txt", "content": "hand-edited custom licence - must never change\n"})
     files.append({"path": "srclic/LicenseRef-Custom.txt", "content": "custom licence text from the source directory\n"})
+    empty_dirs = []
+    if rng.chance(0.3):
+        # directories that exist and are empty: a failed download must leave them where they are
+        files[:] = [f for f in files if not f["path"].startswith("LICENSES/")]
+        empty_dirs = ["LICENSES", "third_party"]
     # names that merely START with the name of a directory that gets annotated recursively
     for extra in ("src2/two.py", "src-legacy/old.py", "srcgen.py", "docs-old/x.html", "src/deeper/y.py", "docs.py"):
         if rng.chance(0.45):
@@ -91,7 +96,7 @@ def gen_case(seed, tier, index=0):
         symlinks.append({"path": "dangling.py", "target": "nonexistent-target"})
     if rng.chance(0.3):
         symlinks.append({"path": "LICENSES/linked.txt", "target": "@S/secret.txt"})
-    world = {"files": files, "symlinks": symlinks, "sentinel": sentinel,
+    world = {"files": files, "symlinks": symlinks, "sentinel": sentinel, "dirs": empty_dirs,
              "home": [{"path": ".gitconfig-decoy", "content": "[user]\n"}, {"path": ".config/reuse/x", "content": "x\n"}]}
     git = rng.chance(0.6)
     if git:
@@ -180,6 +185,7 @@ def gen_case(seed, tier, index=0):
             if rng.chance(0.5) and "MIT" not in ids:
                 ids[0] = "MIT"  # a target that usually exists already
             argv = rng.pick([["download"] + ids, ["download", "--all"], ["download", "-o", "docs/downloaded.txt", ids[0]],
+                             ["download", "-o", "third_party/x.txt", ids[0]],
                              ["download", "--source", "srclic", "LicenseRef-Custom"],
                              ["download", "--source", "srclic/LicenseRef-Custom.txt", "LicenseRef-Custom+"],
                              ["download", "--source", "srclic", "-o", "src/a.py", "LicenseRef-Custom"]])
